@@ -76,11 +76,11 @@ class C07(_AppSpec):
                 for sel in sels:
                     out.append(self.job("c07", dict(s, selection=sel), budget=400.0))
 
-            base = docs.g1_shards(2) + docs.g2_shards(docs.load_pool("core"), replace=True)
+            base = docs.g1_shards(2) + _strided(docs.g2_shards(docs.load_pool("core"), replace=True), 2)
             for sel in sels:
                 for s in base:
                     out.append(self.job("c07", dict(s, selection=sel)))
-            small = docs.g1_shards(1) + docs.g2_shards(docs.load_pool("mini")[:4], replace=True)
+            small = docs.g1_shards(1) + _strided(docs.g2_shards(docs.load_pool("mini")[:4], replace=True), 3)
             for rid in all_rule_ids():
                 for s in small:
                     out.append(self.job("c07", dict(s, selection="only:" + rid)))
@@ -130,18 +130,18 @@ class C09(_AppSpec):
         else:
             for s in docs.g3_shards():
                 out.append(self.job("c09", dict(s, selection="default"), budget=600.0))
-            base = docs.g1_shards(2) + docs.g2_shards(docs.load_pool("core"), replace=True)
+            base = docs.g1_shards(2) + _strided(docs.g2_shards(docs.load_pool("core"), replace=True), 2)
             for s in base:
                 out.append(self.job("c09", dict(s, selection="default")))
-            small = docs.g1_shards(1) + docs.g2_shards(docs.load_pool("mini"), replace=True)
+            small = docs.g1_shards(1) + _strided(docs.g2_shards(docs.load_pool("mini"), replace=True), 3)
             for rid in rules:
                 for s in small:
                     out.append(self.job("c09", dict(s, selection="only:" + rid)))
-            tiny = docs.g1_shards(1) + docs.g2_shards(docs.load_pool("mini")[:3], replace=True)
+            tiny = docs.g1_shards(1) + docs.g3_shards(["blank-lines-and-trailing-spaces"])
             for i, a in enumerate(rules):
                 for b in rules[i + 1:]:
                     for s in tiny:
-                        out.append(self.job("c09", dict(s, selection=f"set:{a},{b}")))
+                        out.append(self.job("c09", dict(s, selection=f"set:{a},{b}"), budget=200.0))
         return out
 
     def bounds_text(self, tier):
@@ -172,9 +172,9 @@ class C10(_AppSpec):
                 for s in docs.g1_shards(1) + docs.g2_shards(["a  \n"], replace=True):
                     out.append(self.job("c10", dict(s, selection="default", second=second)))
         else:
-            base = docs.g1_shards(2) + docs.g2_shards(docs.load_pool("core"), replace=True)
+            base = docs.g1_shards(2) + _strided(docs.g2_shards(docs.load_pool("core"), replace=True), 2)
             for scheme in ("default", "minimal"):
-                for s in base:
+                for s in (base if scheme == "default" else docs.g1_shards(1) + docs.g2_shards(docs.load_pool("mini"), replace=True)):
                     out.append(self.job("c10", dict(s, selection="default", scheme=scheme)))
             for s in docs.g1_shards(1) + docs.g2_shards(docs.load_pool("mini"), replace=True):
                 out.append(self.job("c10", dict(s, selection="all")))
@@ -206,13 +206,14 @@ class C12(_AppSpec):
             base += _strided(docs.g2_shards(["<!-- pyml disable-next-line md009-->\na\tb   \n"], replace=True), 13)
             base += docs.g3_shards(["hashes-and-spaces"])
             return [self.job("c12", s, budget=300.0) for s in base]
-        base = docs.g1_shards(1) + docs.g2_shards(docs.load_pool("core"), replace=True)
+        base = docs.g1_shards(1) + _strided(docs.g2_shards(docs.load_pool("core"), replace=True), 7)
+        base += _strided(docs.g2_shards(["<!-- pyml disable-next-line md009-->\na\tb   \n"], replace=True), 6) + docs.g3_shards(["hashes-and-spaces", "blank-lines-and-trailing-spaces"])
         return [self.job("c12", dict(s, minus=True), budget=900.0) for s in base]
 
     def bounds_text(self, tier):
         if tier == "quick":
             return {"documents": "G1 length 0..1; mini pool, one symbolic cell at every eighth position", "configurations": "all, default, each of the 46 rules alone"}
-        return {"documents": "G1 length 0..1; core pool one cell at every position", "configurations": "all, default, each rule alone, default minus each default-enabled rule"}
+        return {"documents": "G1 length 0..1; core pool one cell at every seventh position; a pragma document; two G3 templates", "configurations": "all, default, each rule alone, default minus each default-enabled rule"}
 
 
 class C14(_AppSpec):
@@ -338,13 +339,15 @@ class C13(_AppSpec):
             for h in (1, 5):
                 out.append(self.job("c13", {"sk1": "[a]: /u\n\n# h\n", "holes1": [h], "sk2": "[a]\n", "holes2": [], "mode": "scan"}, budget=150.0))
         else:
-            for first in _C13_FIRST:
-                for second in _C13_SECOND:
+            for fi, first in enumerate(_C13_FIRST):
+                for si, second in enumerate(_C13_SECOND):
+                    if (fi + si) % 3:
+                        continue
                     for mode in ("scan", "fix"):
-                        for h in holes(second, 1):
+                        for h in holes(second, 2):
                             out.append(self.job("c13", {"sk1": first, "holes1": [], "sk2": second, "holes2": [h], "mode": mode}, budget=200.0))
                     out.append(self.job("c13", {"sk1": first, "holes1": [], "sk2": second, "holes2": [0], "mode": "scan", "api": True}))
-                for h in holes(first, 3):
+                for h in holes(first, 6):
                     out.append(self.job("c13", {"sk1": first, "holes1": [h], "sk2": "[a] x\n", "holes2": [4], "mode": "scan"}, budget=600.0))
         return out
 
@@ -388,7 +391,7 @@ class C18(_AppSpec):
         for minimal in (False, True):
             for argv, cat in _C18_ARGV:
                 out.append(self.job("c18concrete", {"argv": argv, "category": cat, "minimal": minimal}))
-        pool = ["# a\n\nb", "x  \n"] if tier == "quick" else docs.load_pool("mini")
+        pool = ["# a\n\nb", "x  \n"] if tier == "quick" else docs.load_pool("mini")[:4]
         base = docs.g1_shards(1) + docs.g2_shards(pool, replace=True)
         for sc in ("scan1", "fix1", "scan2", "fix2", "stdin", "list"):
             for minimal, by in ((False, "arg"), (True, "arg"), (True, "set")):
@@ -515,14 +518,14 @@ class C08(_AppSpec):
             for s in docs.g3_shards(["heading-levels", "list-indents", "hashes-and-spaces", "fence-lengths"]):
                 out.append(self.job("c08", dict(s, selection="default"), budget=400.0))
         else:
-            for s in docs.g1_shards(2) + docs.g2_shards(_C08_POOL + docs.load_pool("mini"), replace=True):
+            for s in docs.g1_shards(2) + _strided(docs.g2_shards(_C08_POOL, replace=True), 2) + docs.g3_shards():
                 out.append(self.job("c08", dict(s, selection="default"), budget=600.0))
             for rid in _fixable_default_rules():
-                for s in docs.g1_shards(1) + docs.g2_shards(_C08_POOL[:3], replace=True)[::2]:
+                for s in docs.g1_shards(1) + docs.g2_shards(_C08_POOL[:3], replace=True)[::8]:
                     out.append(self.job("c08", dict(s, selection="only:" + rid), budget=400.0))
         return out
 
     def bounds_text(self, tier):
         if tier == "quick":
             return {"documents": "G1 length 0..1; 4 fix-provoking skeletons, one symbolic cell at every third position", "selection": "default rule set"}
-        return {"documents": "G1 length 0..2; 6 fix-provoking skeletons + mini pool, one cell at every position", "selection": "default; each fix-capable default rule alone"}
+        return {"documents": "G1 length 0..2; 7 fix-provoking skeletons, one cell at every second position; G3 templates", "selection": "default; each fix-capable default rule alone"}
